@@ -7,6 +7,7 @@ import (
 	"go/ast"
 	"go/token"
 	"go/types"
+	"sort"
 	"strings"
 
 	"golang.org/x/tools/go/ssa"
@@ -99,6 +100,28 @@ func (c *Ctx) buildVC(fn *ssa.Function, con *Contract) *Unit {
 	if con != nil {
 		u.onReturn = func(f *Frame, rst *State, vals []Val, k int, pos token.Pos) {
 			u.em.obls = append(u.em.obls, &Obligation{Name: fmt.Sprintf("%s#vacuity#return%d", u.unitName(), k+1), Kind: "vacuity", At: len(em.lines), PC: rst.pc, Goal: "false", Func: u.unitName(), Unit: u})
+			if len(con.Exits) > 0 {
+				ord := 0
+				for i, p := range retPositions(fn) {
+					if p == pos {
+						ord = i + 1
+					}
+				}
+				for _, ex := range con.Exits {
+					if ex.Ord != 0 && ex.Ord != ord {
+						continue
+					}
+					lenv := u.loopEnv(f, rst, fn, -1)
+					for k2, v := range bindPost(vals) {
+						if _, clash := lenv.vars[k2]; !clash || strings.HasPrefix(k2, "ret") || k2 == "result" {
+							lenv.vars[k2] = v
+						}
+					}
+					lenv.old = entry
+					lenv.oldVars = params
+					u.oblige(f, rst, "exit", fmt.Sprintf("%d:%s", ord, ex.Clause.label()), lenv.boolExpr(ex.Clause.Expr), pos)
+				}
+			}
 			env := &SpecEnv{u: u, st: rst, old: entry, vars: bindPost(vals), oldVars: params, pkg: con.Pkg, fr: pf, atExit: true}
 			for _, e := range con.Ensures {
 				t := env.boolExpr(e.Expr)
@@ -267,4 +290,18 @@ func (u *Unit) useLemma(f *Frame, st *State, env *SpecEnv, x ast.Expr) {
 	for _, e := range lcon.Ensures {
 		u.assume(st, le.boolExpr(e.Expr))
 	}
+}
+
+// retPositions: positions of the return statements of fn in source order.
+func retPositions(fn *ssa.Function) []token.Pos {
+	var ps []token.Pos
+	for _, b := range fn.Blocks {
+		for _, ins := range b.Instrs {
+			if r, ok := ins.(*ssa.Return); ok {
+				ps = append(ps, r.Pos())
+			}
+		}
+	}
+	sort.Slice(ps, func(i, j int) bool { return ps[i] < ps[j] })
+	return ps
 }
